@@ -1149,14 +1149,37 @@ pub async fn gen_fd(sim: &mut Sim, rng: &mut Prng, stats: &mut Stats, name: &str
     if rng.chance(1, 3) {
         spec.pred = Pred::MaxEven;
     }
+    // a cadence just above max_interval: every interval must be discarded as a sample, so the
+    // member never becomes live; then a silence just above phi_threshold * max_interval
+    let over_max = rng.chance(1, 8);
+    if over_max {
+        spec.phi_num = 8;
+        spec.phi_den = 1;
+        spec.window = 1000;
+        spec.initial_interval_ns = UNIT * 256;
+        spec.max_interval_ns = UNIT * 256;
+        stats.bump("fd_cases_cadence_just_over_max_interval");
+    }
     let dead_grace = spec.dead_grace_ns;
     let max_iv = spec.max_interval_ns;
     sim.join(spec);
+    if over_max {
+        let x = wid_of(&mk_id("x", 0, 6001));
+        for h in 1..=30u64 {
+            sim.deliver(0, &syn_bytes("c", &[(x.clone(), h, 0, 0)]));
+            sim.tick(max_iv + UNIT * 8).await;
+            if h % 5 == 0 {
+                sim.eval(0);
+            }
+        }
+        sim.tick(7 * max_iv).await;
+        sim.eval(0);
+    }
     // x, y: ordinary peers; the third is a previous incarnation of the receiver itself (same
     // node id and address, older generation), as seen after a restart
     let members = [mk_id("x", 0, 6001), mk_id("y", 3, 6002), mk_id("r", 7, 6000)];
     let wids: Vec<WId> = members.iter().map(wid_of).collect();
-    let mut hb = [0u64, 0u64, 0u64];
+    let mut hb = [if over_max { 30u64 } else { 0u64 }, 0u64, 0u64];
     let steady = rng.chance(1, 3);
     let steady_dt = UNIT * *rng.pick(&[16u64, 64, 256]);
     let nops = rng.range(8, 60);
